@@ -693,43 +693,53 @@ class Emitter:
         if len(ps) != len(ft[2]): return False
         return f.ret == ft[1] and all(a == b for a, b in zip(ps, ft[2]))      # exact IR types (typed pointers)
     def compute_mayblock(self):
-        """functions that can reach a blocking primitive (direct calls; indirect calls resolved over address-taken functions)"""
-        calls = {}; indirect = set()
-        text_refs = collections.Counter()
+        """functions that can reach a blocking primitive (direct calls; indirect calls resolved over address-taken
+        functions of exactly the call's IR function type)"""
+        calls = {}; icalls = {}
+        fe = FuncEmitter(self, None)
         for nm, f in self.m.funcs.items():
-            cs = set()
+            cs = set(); ics = []
             for b, ins in f.blocks.items():
                 for ln in ins:
+                    if re.search(r'\b(call|invoke)\b', ln):
+                        try:
+                            x = fe.parse_ins(ln)
+                        except Exception:
+                            x = None
+                        if x and x[0] == 'call':
+                            _, res, rt, fty, callee, args, dest = x
+                            if callee[0] == 'global': cs.add(self.unalias(callee[1]))
+                            else: ics.append(('func', rt, tuple(a_[0] for a_ in args), False) if fty is None else fty)
+                            for at, av, info in args: self.note_addr(av)
+                            continue
                     for g in re.findall(r'@("[^"]+"|[-a-zA-Z$._0-9]+)', ln):
                         g = self.unalias(unq(g))
-                        is_call = re.search(r'\b(call|invoke)\b[^@]*@' + re.escape(g if re.fullmatch(r'[-a-zA-Z$._0-9]+', g) else '"' + g + '"') + r'\(', ln)
-                        if is_call: cs.add(g)
-                        elif g in self.m.funcs: self.addr_taken.add(g)
-                    if re.search(r'\b(call|invoke)\b[^@]*%[-a-zA-Z$._0-9"]+\(', ln) and not re.search(r'\b(call|invoke)\b[^(]*@', ln): indirect.add(nm)
-            calls[nm] = cs
+                        if g in self.m.funcs: self.addr_taken.add(g)
+            calls[nm] = cs; icalls[nm] = ics
         for g, gd in self.m.globals.items():       # vtables / constant tables
-            def walk(v):
-                if not isinstance(v, tuple): return
-                if v and v[0] == 'global':
-                    n = self.unalias(v[1])
-                    if n in self.m.funcs: self.addr_taken.add(n)
-                for y in v:
-                    if isinstance(y, (tuple, list)):
-                        for z in (y if isinstance(y, list) else [y]): walk(z) if isinstance(z, tuple) else None
-                        if isinstance(y, tuple): walk(y)
-            if gd.get('init') is not None: walk(gd['init'])
+            if gd.get('init') is not None: self.note_addr(gd['init'])
         mb = set()
         changed = True
         while changed:
             changed = False
             for nm in self.m.funcs:
                 if nm in mb or nm in self.stubs: continue
-                cs = calls[nm]
-                hit = any(c in self.blocking or c in mb for c in cs)
-                if not hit and nm in indirect:
-                    hit = any(t in mb for t in self.addr_taken)
+                hit = any(c in self.blocking or c in mb for c in calls[nm])
+                if not hit:
+                    hit = any(t in mb and self.sig_compatible(t, ft) for ft in icalls[nm] for t in self.addr_taken)
                 if hit: mb.add(nm); changed = True
         self.mayblock = mb
+    def note_addr(self, v):
+        if not isinstance(v, tuple) or not v: return
+        if v[0] == 'global':
+            n = self.unalias(v[1])
+            if n in self.m.funcs: self.addr_taken.add(n)
+            return
+        for y in v:
+            if isinstance(y, tuple): self.note_addr(y)
+            elif isinstance(y, list):
+                for z in y:
+                    if isinstance(z, tuple): self.note_addr(z)
 
     # ---- driver
     def run(self, entries):
@@ -1174,6 +1184,11 @@ class FuncEmitter:
         if k == 'alloca':
             _, res, t, cnt = x
             self.decl(res, ('ptr', t))
+            if isinstance(self, ResumableFuncEmitter) and (cnt is None or cnt[1][0] == 'int'):
+                # resumable frame: stack objects live outside the frame (their address escapes into callees; a
+                # frame that contains them is rebuilt as a whole on every field write)
+                n = 1 if cnt is None else cnt[1][1]
+                return '%s = (%s*)malloc(sizeof(%s) * %d); __CPROVER_assume(%s != 0);' % (self.lname(res), em.cty(t), em.cty(t), n, self.lname(res))
             if cnt is None or (cnt[1][0] == 'int'):
                 n = 1 if cnt is None else cnt[1][1]
                 st = self.lname(res) + '_mem'
@@ -1484,7 +1499,7 @@ def main():
     ap.add_argument('--stub', action='append', default=[], help='treat as external even if defined')
     ap.add_argument('--stubfile')
     ap.add_argument('--report')
-    ap.add_argument('--e2-main'); ap.add_argument('--e2-thread-entry', help='regex of the thread body function (std::thread::_State_impl<...>::_M_run)')
+    ap.add_argument('--e2-main'); ap.add_argument('--e2-setup', help='plain function run once before scheduling starts'); ap.add_argument('--e2-thread-entry', help='regex of the thread body function (std::thread::_State_impl<...>::_M_run)')
     ap.add_argument('--blocking', action='append', default=[], help='E2: blocking primitive (step function in rt/e2_rt.h)')
     ap.add_argument('--defined', help='file with names of functions the environment model defines; other externals become traps')
     a = ap.parse_args()
@@ -1502,6 +1517,7 @@ def main():
     tentry = None
     if a.e2_main:
         entries.append(a.e2_main)
+        if a.e2_setup: entries.append(a.e2_setup)
         cands = [n for n in mod.funcs if re.fullmatch(a.e2_thread_entry, n)] if a.e2_thread_entry else []
         if len(cands) > 1: raise SystemExit('ir2c: several thread entry functions match: %s' % cands)
         if cands: tentry = cands[0]; entries.append(tentry)
@@ -1527,7 +1543,7 @@ def main():
         else:
             c += 'static void verif_thread_init(uint32_t t, uint8_t *state) { __CPROVER_assert(0, "VERIF model: no thread entry function in the module"); }\n'
             c += 'static int verif_step_thread(uint32_t t) { return %s_step(&verif_mainfr); }\n' % mn
-        c += 'void verif_e2_entry(void) { verif_mainfr.pc = 0; verif_e2_run(); }\n'
+        c += 'void verif_e2_entry(void) { %sverif_mainfr.pc = 0; verif_e2_run(); }\n' % (('%s(); ' % san(a.e2_setup)) if a.e2_setup else '')
     open(a.out, 'w').write(c)
     rep = dict(functions=sorted(em.seen_funcs), externals=sorted(n for n in em.ext_funcs if not n.startswith('llvm.')),
                globals=list(em.seen_globals), mayblock=sorted(n for n in em.mayblock if n in em.seen_funcs), trapped=sorted(getattr(em, 'trapped', [])), external_globals=[g for g in em.seen_globals if mod.globals[g].get('external') or (mod.globals[g].get('init') is None and 'alias' not in mod.globals[g])])
